@@ -41,7 +41,7 @@ int main(void) {
     if (horiz) { ex[n] = ex[0]; ey[n] = ey[n - 1]; } else { ex[n] = ex[n - 1]; ey[n] = ey[0]; }
     n++; }
 #endif
-  Stream in; memset(&in, 0, sizeof in);
+  Stream in = {0};
   double* rv = malloc(sizeof(double) * 2 * (M + 3));
   VARR res; res.f0 = M + 3; res.f1 = 1; res.f2 = (void*)rv; rv[0] = (double)x0; rv[1] = (double)y0;
   uint64_t num = R_PL(&in, 1.0, CLOSED, &res);
